@@ -87,7 +87,7 @@ Unknowns == {"", "@error", "@panic", "@ignore", "A", "Z", "@bogus"}
 Maps == {<<>>, <<"A", "B">>, <<"A", "@ignore">>, <<"Z", "A">>, <<"B", "@panic">>, <<"A", "@error">>}
 Inputs == <<0, 1, 2, 9>>
 \* underlying kinds other than int: float64 and string enums (abstract values 0, 1 are materialised as 0.5 / 1.5 and "x" / "y")
-\* (floatclose: float members that differ only from the eighth significant digit on -- 1.0000000, 1.0000001, ...)
+\* (floatclose: float members that differ only from the eighth significant digit on -- 1.5000000, 1.5000001, ...)
 Kinds == {"float", "string", "floatclose"}
 BigNames == <<"A", "B", "C", "D", "F", "G", "H", "I", "J", "K">>     \* (E is the name of the enum type itself)
 BigEnum == [i \in 1..10 |-> [n |-> BigNames[i], v |-> i - 1]]
